@@ -28,7 +28,9 @@ Count == {"0", "1", "2", "17", "300"}
 Presence == {"absent", "present"}
 PathShape == {"empty", "wallet", "wallet-slash", "slash", "slash-acct", "badregex", "unclosed-group", "long", "unknown", "dotstar", "unicode", "two-slashes",
               "fresh-acct"}      \* an account expression the daemon has never been sent before (a new one every time)
-Str == {"empty", "wallet-only", "valid", "unknown", "no-wallet", "badregex", "long", "unicode", "exists"}
+Str == {"empty", "wallet-only", "valid", "unknown", "no-wallet", "badregex", "long", "unicode", "exists",
+        "underscore"}    \* an account name the wallet refuses only when the account is STORED (after the whole key exchange of a distributed
+                         \* Generate).  Distributed Generate requests are also sent to a cluster of three real instances, where the exchange runs.
 \* content classes of a passphrase (the length class is a separate field): random bytes, all zero, all 0xff, printable, and text
 \* mixing invalid UTF-8 with combining marks (passphrases are Unicode-normalised by the keystore encryptor)
 Fill == {"random", "zeros", "ones", "ascii", "combining"}
